@@ -72,7 +72,8 @@ def run(chk, repo):
                        f"deletion ALT read from {alt!r}", key=key + '::del-alt', fn=f.qual)
             # plain substitution path: no anchoring
             if not is_del and not any(c in ('alt_end - alt_start == 1', 'alt_end - alt_start == 2') for c in conds) and \
-                    not any(c.startswith('alt_position.find') for c in conds):
+                    any(c.startswith('alt_position.find') for c in conds):
+                # the multi-base range form: genomic start and end are independent symbols
                 plain[s] = (st, en, p.env.get('alt_start_genomic'), p.env.get('alt_end_genomic'))
     chk.paths += npaths
     S, E = Aff.sym('S'), Aff.sym('E')
